@@ -184,6 +184,10 @@ def ledger_episode(ctx, props, chain=False, discrete=False, prebuilt=None):
     rw, cash0, evs = cfg["rw"], cfg["cash0"], cfg["evs"]
     steps = grid[cfg["i0"]:]
     acts, outs = [], []
+    reuse_buffer = rng.random() < 0.25
+    buf = None
+    if reuse_buffer and not discrete:
+        ctx.cat("action-buffer-reused-in-place")
     with Mon(sink) as mon:
         env.reset()
         done = ep.done_at_reset(env, sink)
@@ -206,6 +210,14 @@ def ledger_episode(ctx, props, chain=False, discrete=False, prebuilt=None):
                     ctx.cat("target-asks-for-dust-trade")
             acts.append(a)
             mark = len(sink.log)
+            if reuse_buffer and not discrete:
+                # the caller keeps ONE array for its actions and overwrites it in place for every decision (a
+                # pre-allocated action buffer): what was submitted is the content at submission time
+                if buf is None:
+                    buf = np.array(a, dtype=float)
+                buf[:] = a
+                acts[-1] = np.array(a, dtype=float)
+                a = buf
             o, r, done, info = env.step(a)
             outs.append((r, info, mark, len(sink.log)))
             k += 1
